@@ -575,7 +575,8 @@ fn gen_asc_line(rng: &mut Rng) -> String {
 
 fn gen_logcat_line(rng: &mut Rng) -> String {
     let lvl = *rng.pick(&["I", "D", "W", "E", "V", "F", "X", ""]);
-    let tag = *rng.pick(&["auditd", "liblog", "ActivityManager", "ä", "A_B_C_D", "CamelCaseTagName", "", "x y", "日本語タグ", "T"]);
+    // incl. whitespace-only tags of different lengths (all of them abbreviate to the same apid)
+    let tag = *rng.pick(&["auditd", "liblog", "ActivityManager", "ä", "A_B_C_D", "CamelCaseTagName", "", " ", "  ", "\t", "x y", "日本語タグ", "日本語タグ2", "T"]);
     match rng.below(8) {
         0 => format!("{:>10}.{:03} {:5} {:5} {} {:<7}: {}", rng.below(100000), rng.below(1000), rng.below(99999), rng.below(99999), lvl, tag, "message text"),
         1 => format!("{:02}-{:02} {:02}:{:02}:{:02}.{:03} {:5} {:5} {} {}: {}", rng.below(14), rng.below(33), rng.below(25), rng.below(61), rng.below(61), rng.below(1000), rng.below(99999), rng.below(99999), lvl, tag, "threadtime message"),
@@ -589,7 +590,7 @@ fn gen_logcat_line(rng: &mut Rng) -> String {
 }
 
 fn gen_genlog_line(rng: &mut Rng) -> String {
-    let tag: String = match rng.below(8) {
+    let tag: String = match rng.below(9) {
         0 => "conftest".into(),
         1 => "xtf_common.process.process_wrapper".into(),
         2 => "ä".into(),
@@ -597,6 +598,7 @@ fn gen_genlog_line(rng: &mut Rng) -> String {
         4 => "日本".into(),
         5 => "x".repeat(70000),
         6 => format!("Tag{}", rng.below(2000)),
+        7 => (*rng.pick(&["", " ", "  ", "   ", "\t"])).into(),
         _ => "a_b".into(),
     };
     match rng.below(6) {
